@@ -5,6 +5,6 @@ From UV.Vers Require Import Model Spec.
 From UV.Extract Require Import Inst.
 Extraction Language OCaml.
 Extraction "../build/ocaml/model.ml"
-  z_contains z_den z_wf_sorted z_validate z_sort z_invert z_normalize z_from_versions z_nonvacuous z_mem
+  z_contains z_den z_wf_sorted z_validate z_sort z_invert z_normalize z_from_versions z_nonvacuous z_mem z_simplify
   find_vclass find_rclass x_richcmp x_unrelated x_guard_range x_guard_constraint x_range_vclass x_hashable x_frozen
   x_all_vclasses x_all_rclasses x_vclass_name x_rclass_name.
